@@ -1,7 +1,7 @@
 """Which contract families decide which property, and at what claimed level."""
 PROPS = {
     'C03': {
-        'families': ['contracts.optimizer', 'contracts.optfold', 'contracts.sigsim', 'contracts.native'],
+        'families': ['contracts.optimizer', 'contracts.optfold', 'contracts.sigsim', 'contracts.rebuild', 'contracts.native'],
         'level': 'other',
         'technique': 'frame obligation by a conservative def-use scan of the real AST + contract on the fallback path; bounded native stand-in for result equivalence',
         'text': 'Frame obligation "processing does not alter the evolution definitions" decided by a conservative scan of every store '
@@ -26,7 +26,7 @@ PROPS = {
         'not_decided': ['indexes, unique/check constraints, FK targets and M2M tables as SQLite ends up holding them (bounded native only)'],
     },
     'C02': {
-        'families': ['contracts.rebuild', 'contracts.native'],
+        'families': ['contracts.rebuild', 'contracts.optfold', 'contracts.native'],
         'level': 'proof',
         'technique': 'contract-based deductive verification of the rebuild plan (copy map / bound parameters), VCs from the real AST, z3/cvc5; bounded native stand-in for row-level clauses',
         'text': 'Copy-map contract on the prefix of SQLiteAlterTableSQLResult.to_sql: surviving old columns are copied from themselves, '
@@ -134,7 +134,7 @@ PROPS = {
         'not_decided': ['Command.handle as a whole (option parsing, I/O) - only its gate callee is under contract'],
     },
     'C09': {
-        'families': ['contracts.graph', 'contracts.graph_edges'],
+        'families': ['contracts.graph', 'contracts.graph_edges', 'contracts.depcollect'],
         'level': 'proof',
         'technique': 'contract-based deductive verification: VCs from the real AST (incl. DFS loop invariants), z3/cvc5',
         'text': 'Contracts on DependencyGraph (add_node, add_dependency, remove_dependencies, finalize, get_node, '
@@ -170,7 +170,7 @@ PROPS = {
         'not_decided': ['that a retry equals an uninterrupted run needs determinism of the whole pipeline (only partly C14)'],
     },
     'C16': {
-        'families': ['contracts.routing', 'contracts.execution', 'contracts.native'],
+        'families': ['contracts.routing', 'contracts.execution', 'contracts.recording', 'contracts.native'],
         'level': 'proof',
         'technique': 'contract-based deductive verification: VCs generated from the real AST, discharged by z3/cvc5',
         'text': 'is_mutable against an uninterpreted router function (result true iff the routers put the model on the '
